@@ -46,7 +46,7 @@ CHECKS = {
    "the reference model is ~80 lines (sched/src/lib.rs model_nests) and is itself validated by conforming to the implementation on all 377 schedule types x 86 worlds; greedy reference ignores filters and entity::Identifier, as the property states"),
  "C11": ("fault_enumeration", "§2 C11", FAULT,
    "Every single edit (delete, duplicate, swap, alter; per-token-kind alterations incl. every bit flip of archetype identifier bytes, declared lengths +-1, field/struct renames, type changes) at every position of every base serialization in compact-token, human-readable-token and JSON-text form (JSON: also truncation at every byte offset, every value-tree edit, duplicated keys); thorough adds all swaps and all pairs of edits on the smallest bases. Each input is deserialized on the real code: Err (no double drop, no allocator misuse) or Ok(world) that passes the full structural audit, resolves every identifier, survives every continuation operation of a 12-op alphabet and drops cleanly.",
-   "declared lengths bounded by input size; serde_assert/serde_json are the environment; leaks on error paths are reported, not violations"),
+   "declared lengths bounded by input size; serde_assert/serde_json are the environment; leaks on error paths are reported, not violations; the cleanup of partly decoded columns is additionally enumerated over a second registry whose first component no table uses (every Deserialize call position of a component returning Err)"),
  "C17": ("fault_enumeration", "§2 C17", FAULT,
    "For every (base world, operation that calls user code, callback kind, call index k below the count observed in the unfaulted run): a panic is armed at exactly that call, the operation is run, then each of 6 aftermaths (drop; read everything; clear; remove every identifier; Entry::add through every identifier; Entry::remove + entry query through every identifier) is judged by the drop ledger and the checking allocator; process aborts from std's unsafe-precondition checks are attributed to the armed case by a supervising parent. 41 operations incl. remove, clear, Entry::add/remove, clone, clone_from (6 sources), drop, (de)serialization in 3 encodings, ==, Debug, run_system, run_par_system, run_schedule.",
    "second panics never armed; leaks allowed; open known findings (known_findings.json) are matched per call site: clone_from/Clone where the destination is neither identical to the source nor a row-prefix of it, clone_from/Drop per table class of the destroyed value"),
